@@ -14,7 +14,35 @@
 #include <unistd.h>
 #define private public
 #include "RandomGenerator.hpp"
+#include "DensitySubGridCreator.hpp"
+#include "DistributedPhotonSource.hpp"
 #undef private
+
+// point sources with given weights; source s sits in the middle of subgrid s of an S x 1 x 1 grid
+class ListDistribution : public PhotonSourceDistribution {
+public:
+  std::vector< double > _w;
+  virtual photonsourcenumber_t get_number_of_sources() const { return _w.size(); }
+  virtual CoordinateVector<> get_position(photonsourcenumber_t i) {
+    return CoordinateVector<>((i + 0.5) / _w.size(), 0.5, 0.5);
+  }
+  virtual double get_weight(photonsourcenumber_t i) const { return _w[i]; }
+  virtual double get_total_luminosity() const { return 1.; }
+};
+
+// the photon packet split of one freshly constructed DistributedPhotonSource:
+// (subgrid index, number of packets) per entry
+static std::string split_of(size_t N, ListDistribution &dist,
+                            DensitySubGridCreator< DensitySubGrid > &creator, size_t &sum) {
+  DistributedPhotonSource< DensitySubGrid > src(N, dist, creator);
+  std::ostringstream o;
+  sum = 0;
+  for (size_t i = 0; i < src._subgrids.size(); ++i) {
+    o << " " << src._total_number_of_photons[i];
+    sum += src._total_number_of_photons[i];
+  }
+  return o.str();
+}
 
 struct RefRanlux {
   int64_t x[12];
@@ -170,6 +198,39 @@ int main() {
       unlink(name);
       ref.set(k, kc, (int)u64(w[14]), (int)u64(w[16]));
       std::cout << "state " << show_state(*g) << "\n";
+    } else if (w.size() >= 3 && w[0] == "split") {
+      // split <N> <weight bits>:<copies> ...  — construct the photon source several times in
+      // this process from the same inputs; every construction must give the same split
+      const size_t N = u64(w[1]);
+      ListDistribution dist;
+      std::vector< size_t > ncopy;
+      for (size_t i = 2; i < w.size(); ++i) {
+        const size_t c = w[i].find(':');
+        dist._w.push_back(dbl(w[i].substr(0, c)));
+        ncopy.push_back(u64(w[i].substr(c + 1)));
+      }
+      const int_fast32_t S = dist._w.size();
+      DensitySubGridCreator< DensitySubGrid > creator(
+          Box<>(CoordinateVector<>(0.), CoordinateVector<>(1.)),
+          CoordinateVector< int_fast32_t >(S, 1, 1), CoordinateVector< int_fast32_t >(S, 1, 1),
+          CoordinateVector< bool >(false));
+      // copies of subgrid s are appended at the end, as create_copies() does
+      for (int_fast32_t s = 0; s < S; ++s) {
+        if (ncopy[s] > 1) {
+          creator._copies[s] = creator._subgrids.size();
+          for (size_t k = 1; k < ncopy[s]; ++k) {
+            creator._subgrids.push_back(nullptr);
+            creator._originals.push_back(s);
+          }
+        }
+      }
+      size_t sum1 = 0, sum2 = 0, sum3 = 0;
+      const std::string a = split_of(N, dist, creator, sum1);
+      const std::string b = split_of(N, dist, creator, sum2);
+      const std::string c = split_of(N, dist, creator, sum3);
+      std::cout << "split" << a << "\n";
+      if (a != b || a != c) bad << " photon-split-depends-on-earlier-constructions";
+      if (sum1 != N || sum2 != N || sum3 != N) bad << " photon-split-does-not-sum-to-N";
     } else if (w.size() == 3 && w[0] == "differ") {
       // two different seeds (after the 0 -> 1 and 31 bit reduction) must give different streams
       const long long a = std::strtoll(w[1].c_str(), nullptr, 10);
